@@ -31,6 +31,8 @@ pub enum Op {
 pub enum Sch {
     Gen(Schedule),
     Exhaustive(u8),
+    /// real OS threads, unscheduled: `reps` fresh pools, every thread runs its program `loops` times
+    Free { reps: u16, loops: u16 },
 }
 
 #[derive(Clone, Debug, Serialize, Deserialize)]
@@ -237,7 +239,8 @@ fn make_pool(pool: u8, knob: u8) -> Result<Arc<dyn PoolUT>, String> {
             Ok(Arc::new(Mutex5(MutexBasedPool::new(cfg).map_err(|e| e.to_string())?, size, Mutex::new(vec![]))))
         }
         "fixed" => {
-            let cfg = zipora::memory::fixed_capacity_pool::FixedCapacityPoolConfig { max_block_size: 256, total_blocks: 32, ..Default::default() };
+            // knob bit 2: lazily allocated backing memory (the first allocations race for the initialisation)
+            let cfg = zipora::memory::fixed_capacity_pool::FixedCapacityPoolConfig { max_block_size: 256, total_blocks: 32, eager_allocation: knob & 4 == 0, ..Default::default() };
             let size = [16usize, 64, 200][knob as usize % 3];
             Ok(Arc::new(Fixed(Arc::new(zipora::memory::fixed_capacity_pool::FixedCapacityMemoryPool::new(cfg).map_err(|e| e.to_string())?), size)))
         }
@@ -343,7 +346,12 @@ fn do_free(pool: &dyn PoolUT, sh: &Shared, b: Block, whence: &str) {
 }
 
 fn thread_body(pool: Arc<dyn PoolUT>, sh: Arc<Shared>, me: usize, ops: Vec<Op>, nthreads: usize) {
+    thread_body_n(pool, sh, me, ops, nthreads, 1)
+}
+
+fn thread_body_n(pool: Arc<dyn PoolUT>, sh: Arc<Shared>, me: usize, ops: Vec<Op>, nthreads: usize, loops: usize) {
     let mut mine: Vec<Block> = vec![];
+    let ops: Vec<Op> = (0..loops).flat_map(|_| ops.iter().copied()).collect();
     for op in ops {
         sched::op_boundary();
         if sh.poisoned.load(Ordering::SeqCst) {
@@ -394,6 +402,11 @@ struct OneRun {
 }
 
 fn run_once(c: &Case, schedule: Schedule) -> Result<OneRun, String> {
+    run_once_with(c, Some(schedule), 1)
+}
+
+/// `schedule == None`: free-running OS threads (`loops` passes over each program)
+fn run_once_with(c: &Case, schedule: Option<Schedule>, loops: usize) -> Result<OneRun, String> {
     let pool = make_pool(c.pool, c.knob)?;
     let sh = Arc::new(Shared::default());
     *sh.inbox.lock().unwrap() = (0..c.threads.len()).map(|_| vec![]).collect();
@@ -414,10 +427,16 @@ fn run_once(c: &Case, schedule: Schedule) -> Result<OneRun, String> {
         .enumerate()
         .map(|(i, ops)| {
             let (p, s, ops) = (pool.clone(), sh.clone(), ops.clone());
-            Box::new(move || thread_body(p, s, i, ops, n)) as Box<dyn FnOnce() + Send>
+            Box::new(move || thread_body_n(p, s, i, ops, n, loops)) as Box<dyn FnOnce() + Send>
         })
         .collect();
-    let res = sched::run(progs, schedule, None, 6000);
+    let res = match schedule {
+        Some(schedule) => sched::run(progs, schedule, None, 6000),
+        None => {
+            sched::run_free(progs);
+            sched::RunResult::default()
+        }
+    };
     if !res.aborted && !sh.poisoned.load(Ordering::SeqCst) {
         // blocks stranded in inboxes (handed to a thread that had already finished)
         let stranded: Vec<Block> = sh.inbox.lock().unwrap().iter_mut().flat_map(|v| v.drain(..)).collect();
@@ -506,11 +525,11 @@ impl Prop for P {
         "C08"
     }
     fn rule(&self) -> &'static str {
-        "2-3 threads x 1-6 ops (alloc / free own block / hand a block to another thread) against one pool (secure, lock-free, five-level lock-free, five-level mutex, fixed-capacity, basic) with 0-3 pre-freed blocks, interleaved by a generated schedule consumed at the cfg(zipora_verif) yield points around every free-list head load / next read / CAS (random byte schedules + bounded-exhaustive <=2 forced switches for fixed programs). Oracle: global shadow map (no two live blocks overlap, pattern intact at free), drain at quiescence (each freed block reissued at most once, never a live one, none lost for LIFO pools), public counters add up. Non-trivial = a context switch taken at a yield point inside a pool operation; distinct by hash of (pool, programs, effective switch sequence)."
+        "2-3 threads x 1-6 ops (alloc / free own block / hand a block to another thread) against one pool (secure, lock-free, five-level lock-free, five-level mutex, fixed-capacity, basic) with 0-3 pre-freed blocks, interleaved by a generated schedule consumed at the cfg(zipora_verif) yield points around every free-list head load / next read / CAS (random byte schedules + bounded-exhaustive <=2 forced switches for fixed programs). Oracle: global shadow map (no two live blocks overlap, pattern intact at free), drain at quiescence (each freed block reissued at most once, never a live one, none lost for LIFO pools), public counters add up. plus <pool>_free cells: the same programs looped 60x on 2-6 real unscheduled OS threads, 6 fresh pools per case (race windows that contain no yield point; non-trivial = >= 2 allocating threads). Non-trivial = a context switch taken at a yield point inside a pool operation; distinct by hash of (pool, programs, effective switch sequence)."
     }
     fn assumptions(&self) -> Vec<String> {
         vec![
-            "only sequentially consistent interleavings, pre-emption only at the instrumented points (hook H1)".into(),
+            "scheduled cells: only sequentially consistent interleavings, pre-emption only at the instrumented points (hook H1); *_free cells: whatever the host's scheduler and 16 cores produce (not reproducible step by step; the oracle is the same and cannot raise a false alarm, a detection is confirmed by re-running the case)".into(),
             "one size class per case (mixed size classes are property C07)".into(),
             "after a detected double hand-out the run leaks its blocks instead of freeing them (the worker's heap must stay usable)".into(),
         ]
@@ -531,6 +550,14 @@ impl Prop for P {
                 nb,
                 (any::<u8>(), 0u8..4, proptest::collection::vec(proptest::collection::vec(op(), 1..=6), 2..=3), sched_bytes())
                     .prop_map(move |(knob, prefreed, threads, s)| Case { pool: pi, knob, prefreed, threads, schedule: Sch::Gen(s) }),
+            ));
+            // the same programs on 2-6 real, unscheduled OS threads (race windows without a yield point)
+            v.push(Plan::new(
+                &format!("{name}_free"),
+                tier.pick(70, 3000),
+                tier.pick(6, 200),
+                (any::<u8>(), 0u8..4, proptest::collection::vec(proptest::collection::vec(op(), 2..=6), 2..=6))
+                    .prop_map(move |(knob, prefreed, threads)| Case { pool: pi, knob, prefreed, threads, schedule: Sch::Free { reps: 6, loops: 60 } }),
             ));
         }
         v
@@ -575,6 +602,37 @@ impl Prop for P {
                 }
                 Err(e) => ctx.skip(format!("pool construction refused: {e}")),
             },
+            Sch::Free { reps, loops } => {
+                ctx.label("free_running_os_threads");
+                ctx.out.key = Some(fnv(format!("free|{}|{}|{}|{:?}", c.pool, c.knob, c.prefreed, c.threads).as_bytes()));
+                let mut allocating = 0;
+                for t in &c.threads {
+                    if t.iter().any(|o| matches!(o, Op::Alloc)) {
+                        allocating += 1;
+                    }
+                }
+                if allocating >= 2 {
+                    ctx.nontrivial();
+                }
+                for _ in 0..reps {
+                    match run_once_with(&c, None, loops as usize) {
+                        Ok(one) => {
+                            ctx.out.extra_evals += 1;
+                            ctx.out.checks += (loops as u64) * c.threads.iter().map(|t| t.len() as u64).sum::<u64>();
+                            if !one.viol.is_empty() {
+                                for (a, cl, d) in one.viol {
+                                    ctx.fail(&a, "mismatch", &cl, format!("unscheduled OS threads: {d}"));
+                                }
+                                break;
+                            }
+                        }
+                        Err(e) => {
+                            ctx.skip(format!("pool construction refused: {e}"));
+                            return;
+                        }
+                    }
+                }
+            }
             Sch::Exhaustive(k) => {
                 let Ok(dry) = run_once(&c, Schedule::Forced(vec![])) else {
                     ctx.skip("pool construction refused");
